@@ -509,7 +509,9 @@ impl Run {
                     _ => base_chain.clone(), // "foreign": no prefix at all
                 };
                 let amount = Uint128::new(self.sc.up(n(&args, "amt")));
-                let data = cw20_ics20::ibc::Ics20Packet::new(amount, denom, "remote-sender", self.w.addr(&s(&args, "to")).as_str());
+                // ("bad": a receiver string this chain does not accept as an address)
+                let rcv = if s(&args, "to") == "bad" { "NOT-AN-ADDRESS".to_string() } else { self.w.addr(&s(&args, "to")).to_string() };
+                let data = cw20_ics20::ibc::Ics20Packet::new(amount, denom, "remote-sender", &rcv);
                 self.seq += 1;
                 let packet = IbcPacket::new(
                     to_json_binary(&data).unwrap(),
@@ -781,7 +783,9 @@ fn drive(run: &mut Run, cfg: &Value, rng: &mut Rng, len: usize, out: &mut Out) {
                 let form = *rng.pick(&["ok", "ok", "ok", "ok", "ok", "otherport", "otherchan", "foreign", "suffix", "infix"]);
                 let dd = if rng.chance(1, 10) { "foo" } else { d };
                 let amt = match rng.below(5) { 0 => outst.max(0) as u64 + 1, 1 => outst.max(0) as u64, 2 => 0, _ => rng.range(0, outst.max(1) as u64) };
-                json!({"act":"recv","by":"relayer","args":{"ch":ch,"form":form,"denom":dd,"amt":amt,"to":rng.pick(&USERS)}})
+                // a cw20 payout to a receiver that is no address of this chain fails in the token: error ack, nothing moves
+                let to = if dd == "tok" && rng.chance(1, 10) { "bad" } else { *rng.pick(&USERS) };
+                json!({"act":"recv","by":"relayer","args":{"ch":ch,"form":form,"denom":dd,"amt":amt,"to":to}})
             }
             55..=72 => {
                 let inflight: Vec<u64> = obs["inflight"].as_array().unwrap().iter().map(|x| x.as_u64().unwrap()).collect();
